@@ -270,4 +270,37 @@ def run(ctx):
             ctx.count("relations/absolute_zero")
             if abs(oracle.F(got) - from_kelvin(b, Fraction(0))) > Fraction(1, 10**6):
                 ctx.violation("C10:absolute-zero", f"absolute zero {core.sf(z)} {a} -> {b} = {got!r}", {})
+    # the command line (`measured 300 K`) lists what a quantity is equivalent to: the temperatures it prints are conversions
+    # among the four scales like any other, shown to a user
+    try:
+        from measured import cli
+    except Exception as ex:
+        cli = None
+        ctx.count(f"command_line_not_importable/{type(ex).__name__}")
+    if cli is not None and hasattr(cli, "all_equivalents"):
+        for a in SCALES:
+            for mag in [300, 0, -40, 100.5, 2.5e-3, -273.15, 491.67, 1234567.0] + [round(rng.uniform(-500, 5000), 2) for _ in range(6 if ctx.tier == "quick" else 200)]:
+                for pfx in (None, "milli", "kilo"):
+                    src = unit(a, pfx)
+                    kelvin = to_kelvin(a, oracle.F(mag) * (pval(pfx) if pfx else 1))
+                    try:
+                        listed = list(cli.all_equivalents(m.Quantity(mag, src).unprefixed() if pfx else m.Quantity(mag, src)))
+                    except Exception as ex:
+                        ctx.violation(f"C10:command-line-raised:{type(ex).__name__}", f"the equivalents of {mag} {src} raised {ex}", {"scale": a, "mag": repr(mag)})
+                        continue
+                    seen = set()
+                    for q in listed:
+                        name = q.unit.name
+                        if name in SCALES and q.unit.prefix is m.IdentityPrefix or name in SCALES:
+                            seen.add(name)
+                            ctx.count("evaluations")
+                            ctx.count("command_line_equivalents_checked")
+                            ctx.distinct(("cli", a, name, pfx, bucket(mag)), a != name)
+                            want = from_kelvin(name, kelvin)
+                            tol = Fraction(1, 10**9) * max(abs(want), abs(kelvin), 500)
+                            if abs(oracle.F(q.magnitude) - want) > tol:
+                                ctx.violation("C10:command-line-equivalent-is-wrong", f"`measured {mag} {src}` lists {q.magnitude!r} {name}, the definitions give {core.sf(want)!r}",
+                                              {"scale": a, "prefix": pfx, "mag": repr(mag), "listed_as": name})
+                    if len(seen) < 3:
+                        ctx.count("command_line_listed_fewer_than_three_other_scales")
     ctx.require("evaluations", 1000)
